@@ -59,4 +59,26 @@ theorem request_kept_until_terminal (cfg : Manager.Cfg) (i : Manager.In) (k : Sw
   -- request from a finished one (`SwitchoverLemmas.request_kept_counterexample`, kernel-checked).
   exact SwitchoverLemmas.request_kept_until_terminal cfg i k sw hs hkeep hp hfresh
 
+/-! ### the known finding, on the models (known_findings.json: `…manager-died-after-new-master-writable-before-master-key-written`)
+
+`crash_keeps_old_master_key` + `master_key_after_writable`: a manager that dies after `setWritable new true` and before
+`setMasterKey` leaves `new` writable and the OLD master recorded.  What the successor then does with the pending
+automatic failover of a two-node list — the request was never failed, so it is judged again; the promoted node has
+no replica status any more, so it does not count as an alive replica; the quorum check refuses — is this: -/
+
+private def cfgW : Manager.Cfg := { (default : Manager.Cfg) with failover := true, semiSync := true, waitCount := 1 }
+private def deadOld : NS.NodeState := { pingOk := false }
+private def promotedNew : NS.NodeState := { pingOk := true, isMaster := true }
+private def successorView (active : List String) : Manager.In :=
+  { master := some "h1", activeNodes := active, cs := [("h1", deadOld), ("h2", promotedNew)],
+    dcs := [("h1", deadOld), ("h2", promotedNew)], now := 100, failedAt := none }
+
+/-- the successor REJECTS the pending failover (whichever of the two lists the first attempt left behind), so the
+promoted node is never recorded — everything it acknowledges is lost when the old master returns -/
+theorem witness_successor_rejects_after_promotion :
+    Manager.approveSwitchover cfgW (successorView ["h2"]) { from_ := "h1", causeAuto := true, failoverType := true, runCount := 0 } = false ∧
+    Manager.approveSwitchover cfgW (successorView ["h1", "h2"]) { from_ := "h1", causeAuto := true, failoverType := true, runCount := 0 } = false := by
+  decide
+
+
 end C07
